@@ -43,4 +43,5 @@ def run(ctx, rep):
     rep.run(RP.rule_boost_export_name, ctx, rep, "W7")
     rep.run(RI.rule_cpp_spelling_not_flattened, ctx, rep, "W8")
     rep.run(RP.rule_value_slot_never_empty, ctx, rep, "W9")
+    rep.run(RP.rule_templates_are_constant, ctx, rep, "W10")
     rep.run(RF.rule_locals_defined, ctx, rep, "U1", packages=("gtwrap/pybind_wrapper.py",), min_functions=3)
